@@ -13,4 +13,6 @@ package server
 //@   requires opts != nil
 //@ func newNatsServer
 //@   props C09
+//@   local o server.natsServerOptions#1
+//@   local opts server.Options#1
 //@   assert [C09] bus-token-configured: opts.Authorization == o.Auth && (o.WSPort != 0 ==> opts.Websocket.Token == o.Auth) at "server.NewServer(&opts)"
